@@ -6,7 +6,7 @@ from harness.tlc import from_atoms
 from harness.props import c01
 
 INV = ['C02_Structure', 'C09_Conserves', 'OutcomeIsDiagnostic']
-ATTACH = ['', ' ', '\t', '\n', ' \n ', '  ', '\t\n']
+ATTACH = ['', ' ', '\t', '\n', ' \n ', '  ', '\t\n', '\r', ' \r ']
 DETACH_TEXT = ['x', '\n\n', '.', '\n\n[', '.[b]', ' \n\n ', ']', '[', ' ', '\n \n']
 
 
@@ -41,7 +41,7 @@ def scopes(chk):
     common = {'CmdNames': ['a', 'bb'], 'MEnvNames': [], 'VerbNames': [], 'Leaves': [], 'Labels': [''], 'ComPool': ['c']}
     sc = []
     p = dict(common)
-    p.update({'Budget': 4 if quick else 5, 'Seps': ATTACH if not quick else ['', ' ', '\n', ' \n ', '\t'], 'TextPool': ['x', ']', '[', 'a]b'],
+    p.update({'Budget': 4 if quick else 5, 'Seps': ATTACH if not quick else ['', ' ', '\n', ' \n ', '\t', '\r'], 'TextPool': ['x', ']', '[', 'a]b'],
               'MathTextPool': ['x', '['], 'MathKinds': ['$'], 'EnvNames': ['e'], 'ListNames': [], 'MaxSib': 2, 'MaxArgs': 3})
     sc.append(('attach', p))
     p = dict(common)
@@ -52,6 +52,10 @@ def scopes(chk):
     p.update({'Budget': 5 if quick else 7, 'Seps': ['', '\n'], 'TextPool': ['\n\n'], 'MathTextPool': ['x'], 'MathKinds': [], 'ComPool': [],
               'EnvNames': [], 'ListNames': [], 'CmdNames': ['a'], 'MaxSib': 2, 'MaxArgs': 4 if quick else 7, 'MaxDepth': 2})
     sc.append(('runs', p))
+    p = dict(common)
+    p.update({'Budget': 5 if quick else 6, 'Seps': [''], 'TextPool': ['x'], 'MathTextPool': ['x'], 'MathKinds': [], 'ComPool': [], 'EnvNames': [], 'ListNames': [],
+              'CmdNames': ['section*', 'label*', 'in*', 'defx'], 'MaxSib': 2, 'MaxArgs': 4, 'MaxDepth': 2})
+    sc.append(('starred', p))
     return sc
 
 
